@@ -13,12 +13,12 @@ import (
 
 // DSEvent is one write that reached the datastore under a consensus component.
 type DSEvent struct {
-	Ver   int64 // monotone version of this replica's store after the write
+	Ver   int64  // monotone version of this replica's store after the write
 	Op    string // put | delete
 	Key   string
 	Value []byte
 	Kind  string // apply | restore | other (from the call stack, see classify)
-	At    int64 // UnixNano
+	At    int64  // UnixNano
 }
 
 // FaultDS wraps the datastore handed to a consensus component: a versioned
@@ -27,9 +27,9 @@ type DSEvent struct {
 type FaultDS struct {
 	inner ds.Datastore
 
-	mu      sync.Mutex
-	ver     int64
-	events  []DSEvent
+	mu     sync.Mutex
+	ver    int64
+	events []DSEvent
 	// FailWrites, when it returns an error for an op ("put","delete","commit","query"), makes that op fail.
 	FailWrites func(op string, n int) error
 	counts     map[string]int
@@ -126,11 +126,11 @@ func (f *FaultDS) Delete(key ds.Key) error {
 	return err
 }
 
-func (f *FaultDS) Get(key ds.Key) ([]byte, error)    { return f.inner.Get(key) }
-func (f *FaultDS) Has(key ds.Key) (bool, error)      { return f.inner.Has(key) }
-func (f *FaultDS) GetSize(key ds.Key) (int, error)   { return f.inner.GetSize(key) }
-func (f *FaultDS) Sync(prefix ds.Key) error          { return f.inner.Sync(prefix) }
-func (f *FaultDS) Close() error                      { return nil }
+func (f *FaultDS) Get(key ds.Key) ([]byte, error)  { return f.inner.Get(key) }
+func (f *FaultDS) Has(key ds.Key) (bool, error)    { return f.inner.Has(key) }
+func (f *FaultDS) GetSize(key ds.Key) (int, error) { return f.inner.GetSize(key) }
+func (f *FaultDS) Sync(prefix ds.Key) error        { return f.inner.Sync(prefix) }
+func (f *FaultDS) Close() error                    { return nil }
 func (f *FaultDS) Query(q dsq.Query) (dsq.Results, error) {
 	if err := f.fail("query"); err != nil {
 		return nil, err
